@@ -110,7 +110,7 @@ CFG = """CONSTANTS
 INIT Init
 NEXT Next
 CHECK_DEADLOCK FALSE
-INVARIANTS NoMismatch
+INVARIANTS NoMismatch OneInitialVote NoFinalInBadSlot FinalOnlyForOwnNotar FallbackOnlyAfterVoted NoNfForOwnNotar
 POSTCONDITION TraceAccepted
 """
 
@@ -145,6 +145,13 @@ def validate(ctx, name, trace, stakes, nodes, timeout=900):
             rejections.append({"kind": "node-mismatch" if mm else "node-rejected", "node": n, "trace": path,
                                "index": js.get("index"), "what": js.get("what", "rejected"),
                                "step": js.get("step", js.get("event")), "spec": js.get("spec")})
+        elif r.violated and r.violated != "NoMismatch":
+            # a voting rule is broken by what the node broadcast in this execution
+            m = re.search(r"/\\ l = (\d+)", r.tail)
+            idx = int(m.group(1)) - 1 if m else -1
+            rejections.append({"kind": "node-invariant", "node": n, "trace": path, "index": idx,
+                               "what": r.violated, "step": steps[n][idx - 1] if 0 < idx <= len(steps[n]) else None,
+                               "spec": None})
         elif r.violated or (r.error and "Postcondition" not in r.tail):
             raise ToolError(f"node trace validation {name} node {n}: {r.error or r.violated}: {r.tail[-600:]}")
     return rejections, total
@@ -160,6 +167,8 @@ def aspects(rej):
     st, sp = rej.get("step") or {}, rej.get("spec") or {}
     if rej["kind"] == "node-rejected":
         return {"rejected"}
+    if rej["kind"] == "node-invariant":
+        return {"votor", "rule:" + str(rej.get("what"))}
     what = rej.get("what")
     if what == "standstill":
         return {"standstill"}
